@@ -85,6 +85,8 @@ pub fn form_groups(name: &str, same_operand: bool) -> Vec<Vec<u16>> {
         ("r" | "x", "inv" | "neg") => r(2),
         ("r" | "x", "diveuclid") => r(3),
         ("m", "udr" | "idr") => r(8),
+        ("f" | "d" | "r" | "x", "asint") => r(8),
+        ("u" | "i" | "f" | "r" | "x", "asf") => vec![vec![0, 1], vec![2, 3]],
         _ => Vec::new(),
     }
 }
@@ -190,6 +192,7 @@ pub fn run_case(case: &Case, stats: &mut Stats, cnt: &mut C15Counters) -> CaseRe
                 o2.form = f;
                 o2.fault = None;
                 let mut fenv = Env::new(false);
+                fenv.forms_oracle = true;
                 simalloc::track(true);
                 let r = catch_unwind(AssertUnwindSafe(|| {
                     let mut w2 = clone_world(&w);
@@ -223,6 +226,10 @@ pub fn run_case(case: &Case, stats: &mut Stats, cnt: &mut C15Counters) -> CaseRe
                                 res.harness_error = Some(format!("harness panic at {}:{}: {}", p.file(), p.line, p.msg()));
                                 break 'steps;
                             }
+                        }
+                        if let Some((class, detail)) = untracked(|| fenv.violation.take()) {
+                            res.violation = Some(Violation { class, step: k, detail: format!("{} form {}: {}", op.name, f, detail) });
+                            break 'steps;
                         }
                         if fenv.skipped {
                             cnt.forms_skipped += 1;
